@@ -749,6 +749,9 @@ theorem nestedDropsOpen_eq_reprFilters : nestedDropsOpen = reprFilters := rfl
 /-- the engine without those three -/
 def withoutNestedOpen (n : Bytes) : Bool := !nestedDropsOpen.contains n
 
+/-- it is the engine of the theorem without nested drops (`withoutRepr`) -/
+theorem withoutNestedOpen_eq_withoutRepr : withoutNestedOpen = withoutRepr := rfl
+
 /-- every standard filter except `json`, `inspect`, `type` — `sort`, `sort: key`, `sort_natural` and `sort_natural: key`
     included — respects representation equivalence WITH drops nested in containers, up to `unmodelled` (the tie order
     of the two sorts beyond 12 elements), for every name (registered or not) -/
